@@ -4,6 +4,7 @@ import NgoVerif.Meta.M6
 import NgoVerif.Proofs.C08sem
 import NgoVerif.Proofs.StrongEq
 import NgoVerif.Proofs.C08impl
+import NgoVerif.Proofs.C08anon
 import NgoVerif.Proofs.C10multi
 /-!
 # C08 — cleanup deletes only literals and rules that cannot matter
@@ -211,6 +212,37 @@ example (P : Params) (hdn : DnegOld P) (T : Interp) :
   C08_remove_implied_typed P hdn R [atomL "a" ["X"], atomL "b" ["X"]]
     (by simp [sameLits, R, Rewrite.qLit, atomL, blitMem, blitEqb, litEqb, atomEqb, termsEqb, termEqb]) check T
 end C08ex
+
+
+/-! ## a weaker copy of a body literal (`p(X), p(_)`), for every program (`Proofs/C08anon.lean`) -/
+open Proofs.C08anon in
+/-- **deleting `p(t̄)` next to `p(s̄)` is a strong equivalence** when `t̄` is `s̄` with some arguments replaced by distinct
+variables that occur nowhere else in the rule (the anonymous variables, renamed apart): from the executable `anonCheck`,
+in ANY program - aggregates, conditional literals, disjunctive and choice heads included - under the standard head
+semantics and every choice of the parameters.  `bb` is the body before the deletion, with the literal anywhere. -/
+theorem C08_remove_weaker_copy_strongeq (P : Sem.Params) (A : Anon) (bb : List BLit)
+    (hsame : Proofs.C08impl.sameLits bb (A.qLit :: A.body) = true) (h : anonCheck A = true) (pre post : Prog) :
+    Sem.StrongEq (Sem.stdParams P) (pre ++ .rule A.line A.col A.head bb :: post) (pre ++ A.res :: post) := by
+  intro H T
+  rw [(Proofs.C10stm.models_swap P (.rule A.line A.col A.head bb) A.src
+    (fun H' T' => Proofs.C10multi.stmSat_same_body P A.line A.col A.line A.col A.head bb (A.qLit :: A.body)
+      (Proofs.C08impl.sameLits_sound _ _ hsame) H' T') pre post) H T]
+  exact anon_strongEq P A h pre post H T
+
+/-! non-vacuity: `c(X) :- b(X,Y), b(X,_).` (the anonymous variable renamed to `_#1`) -/
+namespace C08anonEx
+open Proofs.C08anon Sem
+def A : Anon :=
+  { line := 1, col := 1, head := .lit (.pos, .sym (.fn "c" [.var "X"] false)),
+    body := [.lit (.pos, .sym (.fn "b" [.var "X", .var "Y"] false)), .lit (.neg, .sym (.fn "e" [.var "Y"] false))],
+    pn := "b", sargs := [.var "X", .var "Y"], targs := [.var "X", .var "_#1"], F := ["_#1"] }
+set_option maxRecDepth 4000 in
+theorem check : anonCheck A = true := by
+  simp [anonCheck, A, Anon.pLit, fresh?, isFresh, freshNames, blitMem, blitEqb, litEqb, atomEqb, termsEqb, termEqb, BLit.vars,
+    BLit.terms, litTerms, Atom.terms, Term.vars, Head.vars, Head.terms]
+example (P : Params) (pre post : Prog) : StrongEq (stdParams P) (pre ++ A.src :: post) (pre ++ A.res :: post) :=
+  anon_strongEq P A check pre post
+end C08anonEx
 
 /-- `api.optimize` (read from the source on every run) constructs this pass with the current program and the caller's
 own declaration lists, under the parameter names the class declares, and replaces the current program by its result -/
